@@ -1,96 +1,487 @@
 package main
 
 import (
-	"context"
+	"bufio"
+	"crypto/sha1"
+	"encoding/json"
 	"fmt"
 	"os"
+	"os/exec"
+	"path/filepath"
+	"regexp"
+	"runtime"
+	"sort"
+	"strconv"
+	"strings"
+	"sync"
 	"time"
 
-	"go.flow.arcalot.io/engine/internal/verif/env"
 	"go.flow.arcalot.io/engine/internal/verif/vrt"
 )
 
-const wf1 = `
-version: v0.2.0
-input:
-  root: RootObject
-  objects:
-    RootObject:
-      id: RootObject
-      properties:
-        n:
-          type:
-            type_id: integer
-steps:
-  a:
-    plugin:
-      src: a
-      deployment_type: builtin
-    step: run
-    input:
-      v: !expr $.input.n
-  b:
-    plugin:
-      src: b
-      deployment_type: builtin
-    step: run
-    input:
-      v: !expr $.steps.a.outputs.success.v
-outputs:
-  success:
-    r: !expr $.steps.b.outputs.success.v
-`
+// UnitResult is what one work unit (usually: one scenario explored to a bound) reports.
+type UnitResult struct {
+	Name           string               `json:"name"`
+	Execs          int                  `json:"execs"`
+	Points         int64                `json:"points"`
+	Signatures     int                  `json:"signatures"`
+	Outcomes       int                  `json:"distinct_outcomes"`
+	OutcomeSample  []string             `json:"outcome_sample,omitempty"`
+	BoundCompleted int                  `json:"bound_completed"`
+	Exhaustive     bool                 `json:"exhaustive"`
+	Violations     []vrt.FoundViolation `json:"violations,omitempty"`
+	HarnessErrors  []string             `json:"harness_errors,omitempty"`
+	Sample         any                  `json:"sample,omitempty"`
+	Validated      int                  `json:"validated,omitempty"`
+	WallMS         int64                `json:"wall_ms"`
+	Nontrivial     int                  `json:"nontrivial,omitempty"`
+}
+
+// Unit is one piece of work of a check.
+type Unit struct {
+	Name string
+	Run  func(deadline time.Time) *UnitResult
+}
+
+// PropCheck describes how one property is decided.
+type PropCheck struct {
+	ID          string
+	Level       string
+	Rule        string
+	Assumptions []string
+	Units       func(tier string) []*Unit
+	Budget      func(tier string) time.Duration
+}
+
+var registry = map[string]*PropCheck{}
+
+func register(p *PropCheck) { registry[p.ID] = p }
 
 func main() {
-	if len(os.Args) > 1 && os.Args[1] == "smoke" {
-		smoke()
-		return
+	if len(os.Args) < 2 {
+		usage()
 	}
-	fmt.Println("usage: verifh smoke")
+	switch os.Args[1] {
+	case "worker":
+		worker(os.Args[2], os.Args[3])
+	case "check":
+		os.Exit(coordinator(os.Args[2], os.Args[3]))
+	case "replay":
+		os.Exit(replay(os.Args[2]))
+	case "list":
+		pc := registry[os.Args[2]]
+		for i, u := range pc.Units(os.Args[3]) {
+			fmt.Println(i, u.Name)
+		}
+	case "yaml":
+		for _, p := range catalogue() {
+			if p.Name == os.Args[2] {
+				fmt.Print(p.YAML())
+				for f, b := range p.Files() {
+					fmt.Printf("--- %s\n%s", f, b)
+				}
+			}
+		}
+	default:
+		usage()
+	}
+}
+
+func usage() {
+	fmt.Println("usage: verifh check <Cxx> <quick|thorough> | worker <Cxx> <tier> | replay <file> | list <Cxx> <tier>")
 	os.Exit(2)
 }
 
-func smoke() {
-	script := &env.Script{Steps: map[string]*env.StepScript{}}
-	env.W = env.NewWorld(script)
-	env.W.Phase = "prepare"
-	pw, err := prepare(wf1, nil)
-	if err != nil {
-		fmt.Println("prepare:", err)
-		os.Exit(1)
+// worker reads unit indexes on stdin and writes one JSON result line per unit.
+func worker(prop, tier string) {
+	pc := registry[prop]
+	if pc == nil {
+		fmt.Fprintln(os.Stderr, "unknown property", prop)
+		os.Exit(2)
 	}
-	type res struct {
-		id   string
-		data any
-		err  error
+	units := pc.Units(tier)
+	in := bufio.NewScanner(os.Stdin)
+	out := bufio.NewWriter(os.Stdout)
+	for in.Scan() {
+		parts := strings.Fields(in.Text())
+		if len(parts) != 2 {
+			continue
+		}
+		idx, _ := strconv.Atoi(parts[0])
+		dl, _ := strconv.ParseInt(parts[1], 10, 64)
+		start := time.Now()
+		res := units[idx].Run(time.UnixMilli(dl))
+		res.Name = units[idx].Name
+		res.WallMS = time.Since(start).Milliseconds()
+		b, err := json.Marshal(res)
+		if err != nil {
+			b, _ = json.Marshal(&UnitResult{Name: units[idx].Name, HarnessErrors: []string{"marshal: " + err.Error()}})
+		}
+		out.Write(b)
+		out.WriteByte('\n')
+		out.Flush()
 	}
-	var last res
-	start := time.Now()
-	st := vrt.Explore(vrt.ExploreCfg{
-		Bound: 1,
-		Menu:  vrt.MenuOf(vrt.KPreempt, vrt.KSwitch, vrt.KSelect),
-		Check: func(x *vrt.Exec) []vrt.Violation {
-			o := x.Outcome()
-			if o.Deadlock || o.Panic != nil || o.StepLimit {
-				d := fmt.Sprintf("deadlock=%v panic=%v blocked=%v", o.Deadlock, o.Panic, o.Blocked)
-				return []vrt.Violation{{Key: "liveness", Detail: d}}
-			}
-			return nil
-		},
-		Outcome: func(x *vrt.Exec) string { return fmt.Sprintf("%s %v %v", last.id, last.data, last.err) },
-	}, func() {
-		env.W = env.NewWorld(script)
-		ctx, cancel := vrt.WithCancel("harness", context.Background())
-		defer cancel()
-		id, data, err := pw.Execute(ctx, map[string]any{"n": 5})
-		last = res{id, data, err}
-	})
-	fmt.Printf("execs=%d points=%d choices=%d max=%d bound=%d exhaustive=%v sigs=%d in %v\n", st.Execs, st.Points, st.ChoicePoints, st.MaxChoices, st.BoundCompleted, st.Exhaustive, st.Signatures, time.Since(start))
-	for k, v := range st.Outcomes {
-		fmt.Printf("  outcome %q x%d\n", k, v)
-	}
-	for _, v := range st.Violations {
-		fmt.Printf("VIOLATION %s: %s\n schedule=%v\n%s", v.Key, v.Detail, v.Schedule, v.Trace)
-	}
-	fmt.Println(st.HarnessErrors)
 }
+
+type knownFinding struct {
+	prop string
+	key  *regexp.Regexp
+	text string
+	raw  string
+}
+
+func loadKnown(prop string) []knownFinding {
+	var out []knownFinding
+	b, err := os.ReadFile("/verif/known_findings.txt")
+	if err != nil {
+		return nil
+	}
+	for _, line := range strings.Split(string(b), "\n") {
+		line = strings.TrimSpace(line)
+		if !strings.HasPrefix(line, "known:") {
+			continue
+		}
+		f := strings.Fields(strings.TrimPrefix(line, "known:"))
+		if len(f) < 2 || f[0] != "property="+prop || !strings.HasPrefix(f[1], "key=") {
+			continue
+		}
+		pat := strings.TrimPrefix(f[1], "key=")
+		re := regexp.MustCompile("^" + strings.ReplaceAll(regexp.QuoteMeta(pat), `\*`, `.*`) + "$")
+		out = append(out, knownFinding{prop: prop, key: re, text: strings.Join(f[2:], " "), raw: pat})
+	}
+	return out
+}
+
+func envInt(name string, def int) int {
+	if v, err := strconv.Atoi(os.Getenv(name)); err == nil {
+		return v
+	}
+	return def
+}
+
+func coordinator(prop, tier string) int {
+	start := time.Now()
+	pc := registry[prop]
+	if pc == nil {
+		fmt.Fprintln(os.Stderr, "unknown property", prop)
+		return 2
+	}
+	seed := envInt("VERIF_SEED", 0)
+	units := pc.Units(tier)
+	budget := pc.Budget(tier)
+	if v := os.Getenv("VERIF_BUDGET_S"); v != "" {
+		if n, err := strconv.Atoi(v); err == nil {
+			budget = time.Duration(n) * time.Second
+		}
+	}
+	deadline := start.Add(budget)
+	nw := envInt("VERIF_WORKERS", runtime.NumCPU())
+	if nw > len(units) {
+		nw = len(units)
+	}
+	if nw < 1 {
+		nw = 1
+	}
+	// deal order: a permutation determined by the seed (results do not depend on it)
+	order := make([]int, len(units))
+	for i := range order {
+		order[i] = i
+	}
+	if seed != 0 {
+		r := uint64(seed)*6364136223846793005 + 1442695040888963407
+		for i := len(order) - 1; i > 0; i-- {
+			r = r*6364136223846793005 + 1442695040888963407
+			j := int((r >> 33) % uint64(i+1))
+			order[i], order[j] = order[j], order[i]
+		}
+	}
+	jobs := make(chan int, len(units))
+	for _, i := range order {
+		jobs <- i
+	}
+	close(jobs)
+	results := make([]*UnitResult, len(units))
+	var mu sync.Mutex
+	var infra []string
+	var wg sync.WaitGroup
+	self, _ := os.Executable()
+	for w := 0; w < nw; w++ {
+		wg.Add(1)
+		go func(w int) {
+			defer wg.Done()
+			var cmd *exec.Cmd
+			var stdin *bufio.Writer
+			var stdout *bufio.Reader
+			startWorker := func() error {
+				cmd = exec.Command(self, "worker", prop, tier)
+				cmd.Env = append(os.Environ(), "GOMAXPROCS=2", "GOGC=200")
+				cmd.Stderr = nil
+				ip, err := cmd.StdinPipe()
+				if err != nil {
+					return err
+				}
+				op, err := cmd.StdoutPipe()
+				if err != nil {
+					return err
+				}
+				stdin = bufio.NewWriter(ip)
+				stdout = bufio.NewReaderSize(op, 1<<20)
+				errFile, _ := os.CreateTemp("", "verifh-worker-*.log")
+				cmd.Stderr = errFile
+				return cmd.Start()
+			}
+			if err := startWorker(); err != nil {
+				mu.Lock()
+				infra = append(infra, "cannot start worker: "+err.Error())
+				mu.Unlock()
+				return
+			}
+			served := 0
+			for idx := range jobs {
+				fmt.Fprintf(stdin, "%d %d\n", idx, deadline.UnixMilli())
+				stdin.Flush()
+				line, err := stdout.ReadBytes('\n')
+				if err != nil {
+					// the worker died: a fatal runtime error in the code under test or in the harness
+					logTail := ""
+					if f, ok := cmd.Stderr.(*os.File); ok {
+						b, _ := os.ReadFile(f.Name())
+						if len(b) > 3000 {
+							b = b[:3000]
+						}
+						logTail = string(b)
+					}
+					_ = cmd.Wait()
+					mu.Lock()
+					results[idx] = &UnitResult{Name: units[idx].Name, Violations: []vrt.FoundViolation{{Violation: vrt.Violation{
+						Key:    "worker-died/" + fatalKey(logTail),
+						Detail: "the worker process died while running " + units[idx].Name + ":\n" + logTail}}}}
+					mu.Unlock()
+					if err := startWorker(); err != nil {
+						mu.Lock()
+						infra = append(infra, "cannot restart worker: "+err.Error())
+						mu.Unlock()
+						return
+					}
+					continue
+				}
+				var res UnitResult
+				if err := json.Unmarshal(line, &res); err != nil {
+					mu.Lock()
+					infra = append(infra, "bad worker output: "+err.Error())
+					mu.Unlock()
+					continue
+				}
+				mu.Lock()
+				results[idx] = &res
+				mu.Unlock()
+				served++
+			}
+			stdin.Flush()
+			if c, ok := cmd.Stdin.(interface{ Close() error }); ok {
+				_ = c
+			}
+			_ = cmd.Process.Kill()
+			_ = cmd.Wait()
+			if f, ok := cmd.Stderr.(*os.File); ok {
+				os.Remove(f.Name())
+			}
+		}(w)
+	}
+	wg.Wait()
+
+	// merge
+	known := loadKnown(prop)
+	var execs int
+	var points int64
+	var sigs, outcomes, validated, nontrivial int
+	exhaustive := true
+	minBound := 1 << 30
+	var perScenario []map[string]any
+	var samples []any
+	type vrec struct {
+		unit string
+		v    vrt.FoundViolation
+	}
+	var newV, knownV []vrec
+	seenKey := map[string]bool{}
+	for i, r := range results {
+		if r == nil {
+			exhaustive = false
+			infra = append(infra, "no result for unit "+units[i].Name)
+			continue
+		}
+		execs += r.Execs
+		points += r.Points
+		sigs += r.Signatures
+		outcomes += r.Outcomes
+		validated += r.Validated
+		nontrivial += r.Nontrivial
+		if !r.Exhaustive {
+			exhaustive = false
+		}
+		if r.BoundCompleted < minBound {
+			minBound = r.BoundCompleted
+		}
+		infra = append(infra, r.HarnessErrors...)
+		if len(perScenario) < 400 {
+			perScenario = append(perScenario, map[string]any{"unit": r.Name, "executions": r.Execs, "signatures": r.Signatures,
+				"distinct_outcomes": r.Outcomes, "bound_completed": r.BoundCompleted, "exhaustive": r.Exhaustive, "wall_ms": r.WallMS})
+		}
+		if r.Sample != nil && len(samples) < 6 {
+			samples = append(samples, map[string]any{"unit": r.Name, "sample": r.Sample, "outcomes": r.OutcomeSample})
+		}
+		for _, v := range r.Violations {
+			if seenKey[v.Key] {
+				continue
+			}
+			seenKey[v.Key] = true
+			isKnown := false
+			for _, k := range known {
+				if k.key.MatchString(v.Key) {
+					isKnown = true
+				}
+			}
+			if isKnown {
+				knownV = append(knownV, vrec{r.Name, v})
+			} else {
+				newV = append(newV, vrec{r.Name, v})
+			}
+		}
+	}
+	if minBound == 1<<30 {
+		minBound = 0
+	}
+	sort.Slice(newV, func(i, j int) bool { return newV[i].v.Key < newV[j].v.Key })
+	sort.Slice(knownV, func(i, j int) bool { return knownV[i].v.Key < knownV[j].v.Key })
+	// one KNOWN-FINDING line per listed finding that was observed
+	printed := map[string]bool{}
+	for _, kv := range knownV {
+		for _, k := range known {
+			if k.key.MatchString(kv.v.Key) && !printed[k.raw] {
+				printed[k.raw] = true
+				fmt.Printf("KNOWN-FINDING: property=%s %s [%s]\n", prop, k.text, k.raw)
+			}
+		}
+	}
+	os.MkdirAll("/verif/replays", 0o755)
+	for _, nv := range newV {
+		h := sha1.Sum([]byte(nv.v.Key))
+		path := fmt.Sprintf("/verif/replays/%s-%x.json", prop, h[:6])
+		art := map[string]any{"property": prop, "tier": tier, "unit": nv.unit, "key": nv.v.Key, "detail": nv.v.Detail,
+			"schedule": nv.v.Schedule, "trace": nv.v.Trace}
+		b, _ := json.MarshalIndent(art, "", " ")
+		_ = os.WriteFile(path, b, 0o644)
+		fmt.Printf("VIOLATION property=%s replay=%s\n", prop, path)
+		fmt.Printf("  key: %s\n  %s\n", nv.v.Key, strings.ReplaceAll(short(nv.v.Detail, 1800), "\n", "\n  "))
+	}
+	wall := time.Since(start).Seconds()
+	if len(samples) == 0 {
+		samples = append(samples, "no unit produced a sample")
+	}
+	cov := map[string]any{
+		"evaluations":                   execs,
+		"distinct_nontrivial":           maxInt(outcomes, nontrivial),
+		"rule":                          pc.Rule,
+		"samples":                       samples,
+		"states":                        sigs,
+		"transitions":                   points,
+		"traces_validated_against_impl": validated,
+		"exhaustive":                    exhaustive,
+		"bound_completed":               minBound,
+		"units":                         len(units),
+		"distinct_outcomes":             outcomes,
+		"per_scenario":                  perScenario,
+		"known_findings_observed":       len(knownV),
+		"explanation":                   pc.Rule,
+	}
+	ev := map[string]any{
+		"property_id": prop, "tier": tier, "seed": seed, "level": pc.Level, "coverage": cov,
+		"assumptions": pc.Assumptions, "wall_s": wall, "violations": len(newV),
+	}
+	os.MkdirAll("/verif/evidence", 0o755)
+	b, _ := json.MarshalIndent(ev, "", " ")
+	if err := os.WriteFile(filepath.Join("/verif/evidence", prop+".json"), b, 0o644); err != nil {
+		fmt.Fprintln(os.Stderr, "cannot write evidence:", err)
+		return 2
+	}
+	fmt.Printf("%s %s: units=%d executions=%d states=%d transitions=%d distinct_outcomes=%d bound_completed=%d exhaustive=%v known=%d new=%d wall=%.1fs\n",
+		prop, tier, len(units), execs, sigs, points, outcomes, minBound, exhaustive, len(knownV), len(newV), wall)
+	if len(infra) > 0 {
+		for i, e := range infra {
+			if i < 10 {
+				fmt.Fprintln(os.Stderr, "harness error:", short(e, 600))
+			}
+		}
+		return 2
+	}
+	if len(newV) > 0 {
+		return 1
+	}
+	return 0
+}
+
+func maxInt(a, b int) int {
+	if a > b {
+		return a
+	}
+	return b
+}
+
+func fatalKey(log string) string {
+	for _, l := range strings.Split(log, "\n") {
+		if strings.HasPrefix(l, "fatal error:") || strings.HasPrefix(l, "panic:") {
+			return short(strings.TrimSpace(l), 60)
+		}
+	}
+	return "unknown"
+}
+
+// replay re-runs the unit and schedule stored in a violation artefact.
+func replay(path string) int {
+	b, err := os.ReadFile(path)
+	if err != nil {
+		fmt.Fprintln(os.Stderr, err)
+		return 2
+	}
+	var art struct {
+		Property string
+		Tier     string
+		Unit     string
+		Key      string
+		Schedule []vrt.Dev
+	}
+	if err := json.Unmarshal(b, &art); err != nil {
+		fmt.Fprintln(os.Stderr, err)
+		return 2
+	}
+	pc := registry[art.Property]
+	if pc == nil {
+		fmt.Fprintln(os.Stderr, "unknown property", art.Property)
+		return 2
+	}
+	for _, u := range pc.Units(art.Tier) {
+		if u.Name != art.Unit {
+			continue
+		}
+		replaySchedule = art.Schedule
+		replayKey = art.Key
+		defer func() { replaySchedule = nil }()
+		res := u.Run(time.Now().Add(5 * time.Minute))
+		for _, v := range res.Violations {
+			if v.Key == art.Key {
+				fmt.Printf("reproduced: %s\n%s\nschedule=%v\n%s\n", v.Key, v.Detail, v.Schedule, v.Trace)
+				fmt.Printf("VIOLATION property=%s replay=%s\n", art.Property, path)
+				return 1
+			}
+		}
+		fmt.Println("the violation did not reproduce on the current tree")
+		return 0
+	}
+	fmt.Fprintln(os.Stderr, "unit not found:", art.Unit)
+	return 2
+}
+
+// replaySchedule, when set, makes exploring units run exactly this schedule.
+var replaySchedule []vrt.Dev
+var replayKey string
